@@ -520,6 +520,61 @@ def history_fn(g):
         src.cleanup()
 
 
+def git_fault_fn(g):
+    """A failing helper subprocess as a decision variable: chain c0 <- c1 <- c2 = HEAD, versions 10 at c0, 20 at c1 (the
+    closest) and 30 at c0 (newer, farther); the k-th `git rev-list --count` of an invocation exits 128 (k = 0: none).  An
+    invocation that fails because of it is accepted; exiting 0 with another version than the closest one is not."""
+    import argparse
+    import conductor.cli.where as cli_where
+    import conductor.cli.run as cli_run
+    k = g.choose("rev_list_fault_at", 4)
+    cmd = ("where", "run")[g.choose("command", 2)]
+    dag = Dag(g, 3)
+    for (i, j), t in dag.p.items():
+        g.assume(g.lift(t if (i, j) in ((1, 0), (2, 1)) else z3.Not(t)))
+    proj = hrun.Project(config="")
+    try:
+        proj.write("COND", "run_experiment(name='e', run='true')\nrun_command(name='d', run='true', deps=[':e'])\n")
+        for ts, c in ((10, 0), (20, 1), (30, 0)):
+            proj.add_version("//:e", ts, commit=H(c))
+
+        class Faulty(GitSched):
+            n = 0
+            fired = None
+
+            def git(self, kernel, argv, cwd):
+                if argv[:2] == ["rev-list", "--count"]:
+                    self.n += 1
+                    if self.n == k:
+                        self.fired = " ".join(argv)
+                        return "", 128
+                return super().git(kernel, argv, cwd)
+        sched = Faulty(g, "dag", dag, 2, False)
+        kern = fakeos.Kernel(sched, clock=fakeos.Clock())
+        if cmd == "where":
+            r = hrun.invoke(cli_where.main, argparse.Namespace(task_identifier="//:e", project=False, non_existent_ok=False, debug=False), str(proj.root), kern)
+            m_ = re.search(r"e\.task\.(\d+)\s*$", r.out)
+            got = int(m_.group(1)) if (m_ and r.status == 0) else None
+        else:
+            r = hrun.invoke(cli_run.main, hrun.run_ns(task_identifier="//:d"), str(proj.root), kern)
+            deps = [p.env.get("COND_DEPS", "") for p in kern.tasks() if p.name == "d"]
+            m_ = re.search(r"e\.task\.(\d+)$", deps[0]) if deps else None
+            got = int(m_.group(1)) if m_ else None
+            if r.status == 0:
+                g.require([p.name for p in kern.tasks()] == ["d"], "select:wrong-run-decision", "spawned %s" % [p.name for p in kern.tasks()])
+        D = "versions 10@c0 20@c1 30@c0, HEAD=c2; cond %s; failing git call: %s" % (cmd, sched.fired)
+        if sched.fired is None:
+            g.require(r.status == 0, "select:run-failed", "status %r; %s" % (r.status, D))
+        if r.status == 0:
+            g.require(got == 20, "select:where-reports-wrong-version" if cmd == "where" else "select:dependent-sees-wrong-version",
+                      "exit 0 with version %s, the closest ancestor version is 20; %s" % (got, D))
+        if sched.fired:
+            g.goal("git rev-list fails during selection")
+        return {"nontrivial": bool(sched.fired), "sample": {"case": D, "status": r.status, "selected": got}}
+    finally:
+        proj.cleanup()
+
+
 def legacy_fn(g):
     """An index still in the on-disk format of Conductor <= 0.4.0 (format 1: a commit column that was never reliable). The
     upgrade records its versions without a commit, so they are reused as commit-less versions: the newest one."""
@@ -622,6 +677,10 @@ def spaces(tier):
     sp.append(Space("select-restore-select", history_fn, "chain c0 <- c1 <- c2 = HEAD, version at c0 recorded; {where, cached run, nothing}; restore of an "
                     "archive with a version made at HEAD or at c1; where / run / run --at-least c1 again", depth=8,
                     goals=["selection asked again after a restore"]))
+    sp.append(Space("git-rev-list-fails", git_fault_fn, "chain of 3 commits, versions at c0, c1 (closest) and a newer one at c0; cond where / cond run of a dependent; "
+                    "the k-th `git rev-list --count` of the invocation exits 128 (k <= 3, a decision variable): the command fails or still selects the "
+                    "closest version", depth=3, goals=["git rev-list fails during selection"],
+                    outside=["failures of other git sub-commands (merge-base's 128 is read as 'not an ancestor' by design)", "unusual git output"]))
     sp.append(Space("format-1-index", legacy_fn, "an index in format 1 (two versions; commit column 'unknown' / an unknown hash / c0 / c1), git in use or "
                     "not, where and run in either order", depth=5, goals=["index upgraded from format 1"]))
     sp.append(Space("bulk-70-versions", bulk_fn, "70 recorded versions: 69 made at an older commit and one at HEAD, the one at HEAD recorded "
